@@ -13,3 +13,4 @@ From HV Require Export PropsTree.
 From HV Require Export PropsClusterNet.
 From HV Require Export PropsRegistry.
 From HV Require Export PropsRemote.
+From HV Require Export PropsClusterCompose.
